@@ -51,6 +51,7 @@ def plan(tier, seed):
         specs.append({"kind": "snapshots", "idx": i, "budget_s": 25 if q else 200})
     specs.append({"kind": "inputs_sweep", "idx": 0, "budget_s": 20 if q else 150})
     specs.append({"kind": "held_reference", "idx": 0, "budget_s": 20 if q else 150})
+    specs.append({"kind": "returned_objects", "idx": 0, "budget_s": 15 if q else 100})
     trials = 32 if q else 200
     for part in range(8 if q else 12):
         specs.append({"kind": "first_use", "part": part, "parts": 8 if q else 12, "trials": trials, "timeout_s": 900 if q else 2400})
@@ -63,7 +64,7 @@ def finalize(agg, tier):
     for n in ("thread_runs:tsan", "thread_runs:plain", "thread_transcripts_compared", "hammer_digests", "interleaved_programs",
               "copies_checked", "destroyed_neighbours", "snapshots_compared", "signer_hash_state_checked", "first_use_trials",
               "first_use_yields_injected", "native_hammer_calls", "native_hammer_runs:plain", "native_hammer_runs:tsan", "python_hammer_calls", "random_storm_draws", "input_sweep_rounds",
-              "input_buffers_compared", "held_reference_objects", "integer_inputs_compared"):
+              "input_buffers_compared", "held_reference_objects", "integer_inputs_compared", "returned_objects_checked"):
         if not c.get(n):
             out.append("deciding counter %s is zero" % n)
     for cv in CURVES:
@@ -996,6 +997,9 @@ def w_inputs_sweep(spec, ctx):
         yield "ECC.construct-seed", lambda: ECC.construct(curve="Ed25519", seed=B(R(32)))
         yield "eddsa.import", lambda: (eddsa.import_public_key(B(ed.public_key().export_key(format="raw"))), eddsa.import_private_key(B(R(32))))
         yield "DH.import_x25519", lambda: (DH.import_x25519_public_key(B(x25.public_key().export_key(format="raw"))), DH.import_x25519_private_key(B(R(32))))
+        yield "DH.import_x448", lambda: (DH.import_x448_public_key(B(ECC.generate(curve="Curve448").public_key().export_key(format="raw"))),
+                                         DH.import_x448_private_key(B(R(56))))
+        yield "Integer.from_bytes", lambda: (Integer.from_bytes(B(R(40)), "little"), Integer.from_bytes(B(R(40)), "big"), Integer.from_bytes(B(R(33), True), "little"))
         yield "DH.key_agreement", lambda: DH.key_agreement(static_priv=x25, static_pub=ECC.generate(curve="Curve25519").public_key(), kdf=lambda z: SHA256.new(z).digest())
         yield "PKCS8", lambda: PKCS8.unwrap(B(PKCS8.wrap(B(asn1.DerOctetString(R(20)).encode()), "1.3.101.112", key_params=None)))
         yield "PKCS8-encrypted", lambda: PKCS8.unwrap(B(PKCS8.wrap(B(asn1.DerOctetString(R(20)).encode()), "1.3.101.112", passphrase=B(b"pw"), key_params=None,
@@ -1193,6 +1197,59 @@ def w_held_reference(spec, ctx):
                           "immutable copies once the caller has overwritten its buffers (a reference was kept instead of a copy)",
                           lambda: {"object": name, "parameters_given_as": pres, "buffers_overwritten": len(held),
                                    "twin_result": expect.hex()[:120], "result": got.hex()[:120] if isinstance(got, bytes) else repr(got)[:200]})
+
+
+def w_returned_objects(spec, ctx):
+    """Objects the library RETURNS belong to the caller: changing one in place (the documented +=, *=, double(), set()) must
+    not change any other object - not the operands it came from, not what the same call returns next time, not a key."""
+    from Crypto.PublicKey import ECC
+    from Crypto.PublicKey.ECC import EccPoint, EccXPoint
+    rng = ctx.rng
+
+    def xy(P):
+        if P.is_point_at_infinity():
+            return "O"
+        return (int(P.x), int(P.y)) if not isinstance(P, EccXPoint) else (int(P.x),)
+    first = True
+    while first or not ctx.expired():
+        first = False
+        for curve in CURVES:
+            k1, k2 = ECC.generate(curve=curve), ECC.generate(curve=curve)
+            P, Q = k1.pointQ.copy(), k2.pointQ.copy()
+            mont = curve.startswith("Curve")
+            before = {"P": xy(P), "Q": xy(Q), "key1": xy(k1.pointQ), "key2": xy(k2.pointQ)}
+            makers = [("point_at_infinity", lambda: P.point_at_infinity()), ("copy", lambda: P.copy()), ("mul-by-1", lambda: P * 1),
+                      ("mul", lambda: P * 7), ("rmul", lambda: 1 * P)]
+            if not mont:
+                makers += [("neg", lambda: -P), ("add-neutral", lambda: P + P.point_at_infinity()), ("neutral-add", lambda: P.point_at_infinity() + P),
+                           ("add", lambda: P + Q), ("neg-neg", lambda: -(-P))]
+                # (key.public_key().pointQ IS the private key's point object: changing it in place changes both keys.  A key's
+                #  point is the key, not a result handed to the caller, so this is recorded in DESIGN.md and not driven.)
+            for name, mk in makers:
+                ctx.case(("returned-object", curve, name))
+                try:
+                    r1 = mk()
+                    v1 = xy(r1)
+                    # the caller works on what it was given
+                    if mont:
+                        r1 *= 5
+                    else:
+                        r1 += Q
+                        r1.double()
+                    r2 = mk()
+                    v2 = xy(r2)
+                except Exception as e:      # noqa
+                    ctx.check(False, "returned-object:exception:%s" % type(e).__name__, "an operation on a returned point raised",
+                              {"curve": curve, "how": name, "exc": repr(e)[:200]})
+                    continue
+                ctx.count("returned_objects_checked")
+                now = {"P": xy(P), "Q": xy(Q), "key1": xy(k1.pointQ), "key2": xy(k2.pointQ)}
+                changed = sorted(k for k in before if before[k] != now[k])
+                ctx.check(not changed and v1 == v2, "returned-object:shared-with-other-objects:" + name,
+                          "changing in place a point that the library returned changed another object (an operand, a key) or what "
+                          "the same call returns the next time: the returned object shares storage with library state",
+                          lambda: {"curve": curve, "returned_by": name, "objects_changed": changed, "first_call": repr(v1)[:120],
+                                   "same_call_after_the_caller_modified_its_result": repr(v2)[:120]})
 
 
 def w_snapshots(spec, ctx):
